@@ -126,7 +126,7 @@ def workloads(rng, quick):
     W["h_exc"] = [([], [excgen.execution(p) for p in progs])]
     # formatting: no %p and no containers shown with their address (addresses differ between builds by nature)
     ex = fmtgen.print_execs(rng, True)
-    W["h_fmt"] = [([], [[l for l in e if ",P," not in l and "WA" not in l and "WL" not in l and "WT" not in l and "WN" not in l and "WX" not in l and "WR" not in l and "WV" not in l and "Wv" not in l and "WM" not in l and "Wm" not in l] for e in ex[: max(2, n)]])]
+    W["h_fmt"] = [([], [[l for l in e if ",P," not in l and "WA" not in l and "WL" not in l and "WT" not in l and "WN" not in l and "WX" not in l and "WR" not in l and "WV" not in l and "Wv" not in l and "WM" not in l and "Wm" not in l and "WO" not in l and "Wo" not in l] for e in ex[: max(2, n)]])]
     W["h_val"] = [([], [valgen.scalar_cmp_exec(rng, k) for k in "IFSX"] + [valgen.seq_cmp_exec(rng, strict=True)] + [["reset", "pool 5", "pool 8", "pool 1", "cycle 3000", "cycle 200", "cycle 6000"]])]
     # dispatch without error paths: which instance / whether implemented, on built-in and run-time types, with the same Type
     # object constructed again in place (cached answers must be forgotten whether or not there is a cache)
